@@ -67,7 +67,7 @@ STRINGS = ["0x0", "0xffff", "0xFFFF", "0x10000", "0x", "0xg", "0x-1", "", " ", "
 
 @obligation(tier="quick", parts=4, timeout=200,
             part_names=["integer", "decimal string of -20..120", "catalogue strings (hex, junk)", "decimal string of 65436..65636"],
-            bounds="iteration as any integer (Z); as the decimal string str(v) of an integer v in the windows -20..120 and 65436..65636 "
+            bounds="iteration as any integer (Z); as the decimal string str(v) of an integer v in the windows -20..120 and 65436..65636 (T: -200..300 and 64536..66536) "
                    "(symbolic, not enumerated; z3 does not finish on the decimal rendering of an unbounded integer); as one of 21 "
                    "catalogue strings (0x-hex boundary values, signs, underscores, blanks, non-ASCII digits, junk)",
             examples=[(0, dict(n=65536, i=0)), (0, dict(n=-1, i=0)), (0, dict(n=65535, i=0)), (3, dict(n=65536, i=0)), (1, dict(n=12, i=0)),
@@ -75,7 +75,7 @@ STRINGS = ["0x0", "0xffff", "0xFFFF", "0x10000", "0x", "0xg", "0x-1", "", " ", "
 def iteration_bounds(n: int, i: int) -> bool:
     """
     pre: 0 <= i < len(STRINGS)
-    pre: part() not in (1, 3) or (-20 <= n <= 120 if part() == 1 else 65436 <= n <= 65636)
+    pre: part() not in (1, 3) or (-WIN <= n <= 100 + WIN if part() == 1 else 65536 - 5 * WIN <= n <= 65536 + 5 * WIN)
     post: _
     """
     hsh = HASHES[0]
@@ -117,6 +117,7 @@ def iteration_bounds(n: int, i: int) -> bool:
 
 
 SMAX = 5 if THOROUGH else 3
+WIN = 200 if THOROUGH else 20          # half-width of the decimal-string windows
 
 
 @obligation(tier="quick", parts=3, timeout=60, part_names=["hash too short", "hash not hex", "hash not a string"],
